@@ -95,3 +95,21 @@ Theorem C10_legacy_flattened_test_refuted :
   /\ v1_addl [Some "int"; None; Some "string"] = None /\ v1_addl_flat [Some "int"; None; Some "string"] = Some (Some "string").
 Proof. exact v1_flat_refuted. Qed.
 Print Assumptions C10_legacy_flattened_test_refuted.
+
+(** Members carrying oneOf / anyOf: the alternatives of the merged type are those of all members, concatenated in the
+    order of the members - every alternative of every member is kept wherever the member stands, nothing is invented.  The
+    variant that rebuilds the list only when the next member has alternatives of its own is refuted (a union followed by a
+    plain member loses the union; the reverse order keeps it). *)
+Theorem C10_alternatives_of_every_member_kept : forall ms m x, In m ms -> In x m -> In x (alts_merge ms).
+Proof. exact alts_merge_keeps_all. Qed.
+Print Assumptions C10_alternatives_of_every_member_kept.
+
+Theorem C10_alternatives_nothing_invented : forall ms x, In x (alts_merge ms) -> exists m, In m ms /\ In x m.
+Proof. exact alts_merge_invents_nothing. Qed.
+Print Assumptions C10_alternatives_nothing_invented.
+
+Theorem C10_alternatives_dropping_refuted :
+  alts_merge [["Cat"; "Dog"]; []] = ["Cat"; "Dog"] /\ alts_merge_dropping [["Cat"; "Dog"]; []] = []
+  /\ alts_merge_dropping [[]; ["Cat"; "Dog"]] = ["Cat"; "Dog"].
+Proof. exact alts_merge_dropping_refuted. Qed.
+Print Assumptions C10_alternatives_dropping_refuted.
